@@ -119,9 +119,9 @@ def c08_b3(t: P2B3, p: int) -> bool:
 def c08_word(t: P2, p: int, w: Tuple[int, int, int], wlen: int) -> bool:
     """
     pre: pinned(p=p, h0=t[0], l0=t[1], wlen=wlen)
-    pre: 1 <= p <= 2 and 0 <= wlen <= 3
+    pre: ((1 <= p) & (p <= 2)) & ((0 <= wlen) & (wlen <= 3))
     pre: cfg_canonical(t, p, 2, 2, 2)
-    pre: all(0 <= w[i] < 3 and (i < wlen or w[i] == 0) for i in range(3))
+    pre: enc.word_ranges(w, wlen, 3)
     post: _
     """
     prods = enc.decode_cfg(t, p, 2, 2, 2)
@@ -132,7 +132,7 @@ def c08_word(t: P2, p: int, w: Tuple[int, int, int], wlen: int) -> bool:
 def c08_chain(sd: bool, aa: bool, bmask: int, cmask: int) -> bool:
     """
     pre: pinned(sd=sd, aa=aa, bmask=bmask)
-    pre: 0 <= bmask < 16 and 0 <= cmask < 8
+    pre: ((0 <= bmask) & (bmask < 16)) & ((0 <= cmask) & (cmask < 8))
     post: _
     """
     from vlib.conds import chain
@@ -157,7 +157,7 @@ def _chain_oracle(args, obs):
 def c08_declared(t: P2, p: int, extra: int) -> bool:
     """
     pre: pinned(p=p, extra=extra)
-    pre: 0 <= p <= 1 and 0 <= extra < 4
+    pre: ((0 <= p) & (p <= 1)) & ((0 <= extra) & (extra < 4))
     pre: cfg_canonical(t, p, 2, 2, 2)
     post: _
     """
